@@ -209,27 +209,33 @@ def tlc(area, module, cfg, env=None, workers=None, extra=(), timeout=3600, expec
 
 
 # --------------------------------------------------------------------------- batch trace validation (P judges)
-def validate(area, module, traces, cfg=None, env=None, workers=None, chunk=None, timeout=3600):
+def validate(area, module, traces, cfg=None, env=None, workers=None, chunk=None, timeout=3600, parallel=4):
     """Validate recorded traces against P.  `traces` is a list of dicts with an 'id'.
     Trace_<X>.tla has Init == tid \\in 1..Len(Traces), one Verdict step per trace (or one
-    step per event) and prints <<"REJECT", id, clause>> for every trace P does not allow.
-    Acceptance is total: TLC must report exactly `expected_states(traces)` distinct states.
-    Returns list of (id, clause)."""
+    step per event) and prints <<"REJECT", id, clause, ...>> for every trace P does not allow.
+    Acceptance is total: TLC must report exactly the expected number of distinct states.
+    Large batches are split into chunks validated by concurrent TLC processes.
+    Returns list of (id, clause, rest)."""
     if not traces:
         return []
     cfg = cfg or (module + ".cfg")
-    rejects = []
-    chunk = chunk or len(traces)
-    for k in range(0, len(traces), chunk):
-        part = traces[k:k + chunk]
+    if chunk is None:
+        chunk = len(traces) if len(traces) < 4000 else -(-len(traces) // parallel)
+    parts = [traces[k:k + chunk] for k in range(0, len(traces), chunk)]
+    w = workers or max(2, NCPU // max(1, min(len(parts), parallel)))
+
+    def one(args):
+        k, part = args
         f = os.path.join(workdir(), "traces_%s_%d_%d.json" % (module, os.getpid(), k))
         with open(f, "w") as fh:
             json.dump(part, fh)
         e = {"TRACE_FILE": f}
         if env:
             e.update(env)
-        r = tlc(area, module, cfg, env=e, workers=workers, timeout=timeout)
-        os.unlink(f)
+        try:
+            r = tlc(area, module, cfg, env=e, workers=w, timeout=timeout)
+        finally:
+            os.unlink(f)
         expected = sum(len(t["ev"]) + 1 if "ev" in t else 2 for t in part)
         rej = r.tuples("REJECT")
         # a rejected multi-event trace stops early: it contributes fewer states
@@ -238,8 +244,15 @@ def validate(area, module, traces, cfg=None, env=None, workers=None, chunk=None,
                 module, r.distinct, expected, "\n".join(r.lines[-30:])))
         if rej and r.distinct > expected:
             raise MachineryError("trace validation of %s: too many states" % module)
-        for t in rej:
-            rejects.append((t[1], t[2] if len(t) > 2 else "?", t[3:] if len(t) > 3 else []))
+        return [(t[1], t[2] if len(t) > 2 else "?", t[3:] if len(t) > 3 else []) for t in rej]
+
+    if len(parts) == 1:
+        return one((0, parts[0]))
+    from concurrent.futures import ThreadPoolExecutor
+    rejects = []
+    with ThreadPoolExecutor(parallel) as ex:
+        for r in ex.map(one, enumerate(parts)):
+            rejects.extend(r)
     return rejects
 
 
